@@ -1023,110 +1023,17 @@ func (fw *fsmWorld) historyOracles(roleConsistent bool) {
 			continue
 		}
 		evs := fw.eventsOf(c.chid)
-		prev := c.base
-		terminalAt := -1
-		if isTerminal(prev.Status) {
-			terminalAt = 0
+		sev := make([]StreamEv, len(evs))
+		for k, e := range evs {
+			sev[k] = StreamEv{Code: e.code, Snap: e.snap, Step: e.step}
 		}
-		for i, e := range evs {
-			cur := e.snap
-			d := prev.Diff(cur)
-			has := func(x string) bool {
-				for _, y := range d {
-					if y == x {
-						return true
-					}
-				}
-				return false
-			}
-			codeName := datatransfer.Events[e.code]
-			// C02: nothing after terminal
-			if terminalAt >= 0 {
-				r.Failf("C02", "event-after-terminal", codeName, "channel %d: event %s announced after the channel reached %s", c.chid.ID, codeName, "a terminal status")
-			}
-			if isTerminal(cur.Status) && terminalAt < 0 {
-				terminalAt = i
-			}
-			// C19 / C06: immutable fields never change; logs are append-only
-			if has("immutable") {
-				r.Failf("C19", "immutable-changed", codeName, "channel %d: event %s changed identity fields: %v -> %v", c.chid.ID, codeName, prev, cur)
-			}
-			if !isPrefix(prev.Vouchers, cur.Vouchers) || !isPrefix(prev.Results, cur.Results) {
-				r.Failf("C19", "log-not-append-only", codeName, "channel %d: event %s rewrote the voucher/result log", c.chid.ID, codeName)
-			}
-			if cur.Voucher0 != c.created.Voucher0 {
-				r.Failf("C19", "first-voucher-changed", codeName, "channel %d: Voucher() is %s, opened with %s", c.chid.ID, cur.Voucher0, c.created.Voucher0)
-			}
-			// C03 orthogonality
-			if evBookkeeping[e.code] {
-				if has("status") && !(e.code == datatransfer.ResumeResponder && prev.Status == datatransfer.Finalizing && cur.Status == datatransfer.Completing) {
-					r.Failf("C03", "bookkeeping-changed-status", codeName, "channel %d (%s): bookkeeping event %s moved the status %s -> %s", c.chid.ID, roleNames[c.role], codeName, datatransfer.Statuses[prev.Status], datatransfer.Statuses[cur.Status])
-				}
-			} else if evLifecycle[e.code] {
-				fin := prev.Status == datatransfer.Finalizing || cur.Status == datatransfer.Finalizing
-				for _, f := range d {
-					switch f {
-					case "counters", "indexes", "limit", "reqfin", "vouchers", "results", "ipaused":
-						r.Failf("C03", "lifecycle-changed-bookkeeping", codeName+"|"+f, "channel %d: lifecycle event %s changed %s: %v -> %v", c.chid.ID, codeName, f, prev, cur)
-					case "rpaused":
-						if !fin {
-							r.Failf("C03", "lifecycle-changed-bookkeeping", codeName+"|"+f, "channel %d: lifecycle event %s changed the responder pause flag: %v -> %v", c.chid.ID, codeName, prev, cur)
-						}
-					}
-				}
-			}
-			// C11 pause flags
-			fw.pauseOracle(c, e, prev, cur, d)
-			// C07 monotonic
-			if cur.Queued < prev.Queued || cur.Sent < prev.Sent || cur.Received < prev.Received || cur.QIdx < prev.QIdx || cur.SIdx < prev.SIdx || cur.RIdx < prev.RIdx {
-				r.Failf("C07", "total-decreased", codeName, "channel %d: event %s decreased a total or index: %v -> %v", c.chid.ID, codeName, prev, cur)
-			}
-			prev = cur
-		}
+		base := c.base
+		checkStream(r, fmt.Sprintf("channel %d (%s)", c.chid.ID, roleNames[c.role]), c.selfIsInitiator(), &base, c.created.Voucher0, sev)
 		// C17 R3: announced codes are a subsequence of sent codes (plus internally generated ones)
 		fw.sentHistoryOracle(c, evs)
 		if roleConsistent {
 			fw.diamondOracle(c, evs)
 		}
-	}
-}
-
-func (fw *fsmWorld) pauseOracle(c *fsmChan, e *evRec, prev, cur Snap, d []string) {
-	r := fw.r
-	codeName := datatransfer.Events[e.code]
-	fin := prev.Status == datatransfer.Finalizing || cur.Status == datatransfer.Finalizing
-	ipCh, rpCh := prev.IPaused != cur.IPaused, prev.RPaused != cur.RPaused
-	switch e.code {
-	case datatransfer.PauseInitiator:
-		if !cur.IPaused || (rpCh && !fin) {
-			r.Failf("C11", "pause-flag", codeName, "channel %d: after %s InitiatorPaused=%v, responder flag changed=%v", c.chid.ID, codeName, cur.IPaused, rpCh)
-		}
-	case datatransfer.ResumeInitiator:
-		if cur.IPaused || (rpCh && !fin) {
-			r.Failf("C11", "pause-flag", codeName, "channel %d: after %s InitiatorPaused=%v, responder flag changed=%v", c.chid.ID, codeName, cur.IPaused, rpCh)
-		}
-	case datatransfer.PauseResponder, datatransfer.DataLimitExceeded:
-		if !cur.RPaused || ipCh {
-			r.Failf("C11", "pause-flag", codeName, "channel %d: after %s ResponderPaused=%v, initiator flag changed=%v", c.chid.ID, codeName, cur.RPaused, ipCh)
-		}
-	case datatransfer.ResumeResponder:
-		if (cur.RPaused && cur.Status != datatransfer.Finalizing) || ipCh {
-			r.Failf("C11", "pause-flag", codeName, "channel %d: after %s ResponderPaused=%v, initiator flag changed=%v", c.chid.ID, codeName, cur.RPaused, ipCh)
-		}
-	default:
-		if ipCh || (rpCh && !fin) {
-			r.Failf("C11", "pause-flag-changed-by-other-event", codeName, "channel %d: event %s changed pause flags: %v -> %v", c.chid.ID, codeName, prev, cur)
-		}
-	}
-	if cur.Both != (cur.IPaused && cur.RPaused) {
-		r.Failf("C11", "both-paused", codeName, "channel %d: BothPaused=%v with initiator=%v responder=%v", c.chid.ID, cur.Both, cur.IPaused, cur.RPaused)
-	}
-	wantSelf := cur.RPaused
-	if c.selfIsInitiator() {
-		wantSelf = cur.IPaused
-	}
-	if cur.SelfP != wantSelf {
-		r.Failf("C11", "self-paused", roleNames[c.role], "channel %d (%s): SelfPaused=%v but own flag is %v", c.chid.ID, roleNames[c.role], cur.SelfP, wantSelf)
 	}
 }
 
@@ -1320,5 +1227,7 @@ func init() {
 	Register("C03", h("fsm-role-consistent", 5, true, false, false), h("fsm-arbitrary", 2, false, false, false), h("fsm-role-consistent-reopen", 1, true, true, false))
 	Register("C06", h("fsm-role-consistent-reopen", 3, true, true, false), h("fsm-arbitrary-reopen", 3, false, true, false), h("fsm-exhaustive-boundaries", 1, true, false, true))
 	Register("C11", h("fsm-role-consistent", 3, true, false, false), h("fsm-arbitrary", 3, false, false, false))
+	Register("C09", h("fsm-role-consistent", 2, true, false, false), h("fsm-arbitrary", 2, false, false, false), h("fsm-arbitrary-reopen", 1, false, true, false))
+	Register("C19", h("fsm-role-consistent", 1, true, false, false), h("fsm-arbitrary-reopen", 1, false, true, false))
 	Register("C17", h("fsm-role-consistent", 3, true, false, false), h("fsm-arbitrary", 3, false, false, false), h("fsm-exhaustive-boundaries", 1, false, false, true))
 }
